@@ -5,6 +5,7 @@ import Mahotas.Proofs.C01
 import Mahotas.Proofs.C01Scatter
 import Mahotas.Proofs.C01Star
 import Mahotas.Proofs.C01Fast
+import Mahotas.Proofs.C01Loops
 import Mahotas.Proofs.C01Tables
 import Mahotas.Generated.Tables
 namespace Mahotas.C01
@@ -276,6 +277,42 @@ theorem C01_fast_erode_eq_spec (A : Img Int) (Ny Nx By Bx : Nat) (bc : Array Int
     · exact absurd h hne
     · exact h
 
+/-- **C01-T2, row loops (the erosion branch as written).** `fastErodeLoops` transliterates the erosion branch
+of `fast_binary_dilate_erode_2d` loop by loop: the output is initialised with a copy of the input (centre
+set) or all-true; for every row `y` and every offset `(dy, dx)` of the list, `dy` is adjusted so that
+`y + dy` stays inside, a border loop of `|dx|` iterations ANDs the replicated edge pixel of the input row
+into the far columns and the main loop of `Nx − |dx|` iterations ANDs the shifted input row into the
+output row (flat 0/1 array, pointer arithmetic as index arithmetic). For every 2-D 0/1 image, every
+element (any shape, including non-2-D shapes for which the offset list is empty) and every pixel, the cell
+the loops leave is the pointwise form `fastErodeAt` — so by `C01_fast_erode_eq_spec` the loops compute the
+lattice definition. The loop bounds `dx` (not `dx − 1`) and the clamping of `dx` to `±Nx` are what make
+this true; the driver prints `fastErodeLoops` and the harness compares it with the real fast path. -/
+theorem C01_fast_erode_loops_eq_pointwise (A : Img Int) (Ny Nx : Nat) (bshape : List Nat) (bc : Array Int)
+    (y x : Int) (hshape : A.shape = [Ny, Nx]) (hdata : A.data.size = A.size)
+    (hA : ∀ q, A.getD q 0 = 0 ∨ A.getD q 0 = 1) (hp : inside A.shape [y, x] = true) :
+    (fastErodeLoops A bshape bc).size = A.size ∧
+    (fastErodeLoops A bshape bc).getD (ravelI A.shape [y, x]) 0 = fastErodeAt A bshape bc [y, x] ∧
+    (∀ By Bx, bshape = [By, Bx] → bc.size = By * Bx →
+      (fastErodeLoops A bshape bc).getD (ravelI A.shape [y, x]) 0 =
+        erodeSpecAt dtBool A (support bshape bc true) [y, x]) := by
+  obtain ⟨shape, data⟩ := A
+  simp only at hshape
+  subst hshape
+  obtain ⟨_, _, e, hy, hx⟩ := inside2 Ny Nx _ hp
+  simp only [List.cons.injEq, and_true] at e
+  obtain ⟨rfl, rfl⟩ := e
+  have h01 := data01_of_img [Ny, Nx] data hdata hA
+  obtain ⟨h1, h2⟩ := fastErodeLoops_cell Ny Nx data bshape bc hdata h01 y.toNat x.toNat (by omega) (by omega)
+  have ey : ((y.toNat : Nat) : Int) = y := by omega
+  have ex : ((x.toNat : Nat) : Int) = x := by omega
+  rw [ey, ex] at h2
+  have hr : ravelI [Ny, Nx] [y, x] = y.toNat * Nx + x.toNat := by simp [ravelI, shapeSize]
+  rw [hr]
+  refine ⟨h1, h2, ?_⟩
+  rintro By Bx rfl hbc
+  rw [h2]
+  exact (C01_fast_erode_eq_spec ⟨[Ny, Nx], data⟩ Ny Nx By Bx bc y x rfl hA hbc hp).1
+
 /-- **C01-T5 (2-D boolean fast path, dilation = generic kernel).** For every non-empty 2-D boolean
 image and every 2-D structuring element (odd or even sized, empty, larger than the image, regular or not)
 the model of the dilation branch of `fast_binary_dilate_erode_2d` (as repaired: scatter with clamp, the
@@ -463,6 +500,7 @@ example :
     let sup := support [3, 3] bc true
     (allPos A.shape).map (fastErodeAt A [3, 3] bc) = [1, 0, 1, 0, 1, 0, 1, 0, 0, 0, 1, 1] ∧
     (allPos A.shape).map (erodeSpecAt dtBool A sup) = [1, 0, 1, 0, 1, 0, 1, 0, 0, 0, 1, 1] ∧
+    (fastErodeLoops A [3, 3] bc).toList = [1, 0, 1, 0, 1, 0, 1, 0, 0, 0, 1, 1] ∧
     (fastDilate D [3, 3] bc).toList = [0, 0, 1, 1, 1, 1, 0, 1, 1, 1, 0, 0] ∧
     (dilateModel dtBool D sup).toList = [0, 0, 1, 1, 1, 1, 0, 1, 1, 1, 0, 0] ∧
     (allPos D.shape).map (dilateSpecAt dtBool D sup) = [0, 0, 1, 1, 1, 1, 0, 0, 1, 1, 0, 0] := by
